@@ -135,6 +135,55 @@ func checkC02(env *Env) []Violation {
 			out = append(out, vf("idle-delivery", "gauge %q %v delivered again (%v) by a pass although it was not updated since its last delivery", d.Name, d.Tags, f64from(d.F)))
 		}
 	}
+	// (d') "A gauge that has not been updated since it was last delivered is not
+	// delivered again", at every point of the history and not only for the idle
+	// pass of the epilogue. Read per update: one Update is never delivered twice.
+	// A value is delivered more often than it was passed to Update although every
+	// Update carrying it had returned before its first delivery (an Update still
+	// in progress at a delivery may legitimately be picked up once more; a later
+	// delivery with another value is a delivery of another update, not a repeat).
+	type valKey struct {
+		id string
+		f  uint64
+	}
+	delsOf := map[valKey][]*Delivery{}
+	var order []valKey
+	for _, d := range dels {
+		if d.Kind != EvGauge || env.isInternalID(d.Name, d.Tags) {
+			continue
+		}
+		k := idKey(d.Name, d.Tags)
+		if a, ok := alias[k]; ok && gs[k] == nil {
+			k = a
+		}
+		if gs[k] == nil {
+			continue
+		}
+		vk := valKey{k, d.F}
+		if delsOf[vk] == nil {
+			order = append(order, vk)
+		}
+		delsOf[vk] = append(delsOf[vk], d)
+	}
+	for _, vk := range order {
+		h, ds := gs[vk.id], delsOf[vk]
+		if len(h.tasks) > 1 || haveForbiddenUpdates(ci, ops, vk.id) {
+			continue
+		}
+		n, allReturned := 0, true
+		for _, u := range h.updates {
+			if u.Op.F == vk.f {
+				n++
+				if u.Ret == 0 || u.Ret > ds[0].Ev.Seq {
+					allReturned = false
+				}
+			}
+		}
+		if n > 0 && len(ds) > n && allReturned {
+			out = append(out, vf("redelivered-without-update", "gauge %q %v: the value %v (bits %#x) was passed to Update %d time(s), every such Update had returned before its first delivery at #%d, and it was delivered %d times (again at #%d)",
+				h.name, h.tags, f64from(vk.f), vk.f, n, ds[0].Ev.Seq, len(ds), ds[n].Ev.Seq))
+		}
+	}
 	for k, h := range gs {
 		// (b) never more deliveries than updates
 		if count[k] > len(h.updates) {
@@ -170,4 +219,17 @@ func checkC02(env *Env) []Violation {
 		}
 	}
 	return out
+}
+
+// haveForbiddenUpdates reports whether the gauge identity was also updated
+// through a handle of an inert scope (such updates are not in the ledger).
+func haveForbiddenUpdates(ci *closeInfo, ops []*OpRec, key string) bool {
+	for _, r := range ops {
+		if mv, _ := r.Obj.(*metricVar); mv != nil && mv.kind == "gauge" && r.Op.K == "upd" && idKey(mv.FullName, mv.Tags) == key {
+			if ci.obligation(mv, r) == forbidden {
+				return true
+			}
+		}
+	}
+	return false
 }
